@@ -319,3 +319,214 @@ def c_associative_rules(ck, rid, where):
             ck.ob(rid, "c:%s:n-ary:emitted" % op, ok, where, "%r over three 16-bit operands is emitted as `%s` on %s" % (op, text, [repr(x) for x in terms]))
     except Undetermined as e:
         raise AnalysisError("C translation of associative operators: construct not understood by the partial evaluator (%s)" % e)
+
+
+# ---------------------------------------------------------------------------------------------------------------------
+# LLVM back end (C20-R6): what LLVMFunction.add_ir asks the IRBuilder to build, as a term
+
+def _ll(t):
+    """builder term -> plain tuples: ("const", width, value) / ("leaf", name) / (builder op, operands...) / ("type", width)"""
+    if isinstance(t, Term):
+        if t.head == "leaf":
+            return ("leaf", t[1])
+        if t.head == "apply" and isinstance(t[1], Term) and t[1].head.endswith("IntType") and len(t) == 3 and isinstance(t[2], int):
+            w = t[1][1]
+            return ("const", w, t[2] & ((1 << w) - 1)) if isinstance(w, int) else ("const", w, t[2])
+        if t.head.endswith(".Constant") and len(t) == 3 and isinstance(t[1], Term) and t[1].head.endswith("IntType") and isinstance(t[2], int):
+            w = t[1][1]
+            return ("const", w, t[2] & ((1 << w) - 1))
+        if t.head.endswith("IntType") and len(t) == 2:
+            return ("type", t[1])
+        if t.head.startswith("B."):
+            return (t.head[2:],) + tuple(_ll(x) for x in t.args)
+        return (t.head,) + tuple(_ll(x) for x in t.args)
+    if isinstance(t, (list, tuple)):
+        return tuple(_ll(x) for x in t)
+    return t
+
+
+def _ll_cond(c):
+    """comparison term -> (signedness, relation in == < <=, left, right), negations and > >= folded away; None when not a comparison"""
+    if not (isinstance(c, tuple) and c and c[0] in ("icmp_unsigned", "icmp_signed") and len(c) == 4):
+        return None
+    sg = "u" if c[0] == "icmp_unsigned" else "s"
+    tok, l, r = c[1], c[2], c[3]
+    if tok == ">":
+        tok, l, r = "<", r, l
+    elif tok == ">=":
+        tok, l, r = "<=", r, l
+    if tok == "==":
+        sg = "u"
+    return (sg, tok, l, r)
+
+
+def _ll_negate(cc):
+    sg, tok, l, r = cc
+    if tok == "<":
+        return (sg, "<=", r, l)
+    if tok == "<=":
+        return (sg, "<", r, l)
+    return (sg, {"==": "!=", "!=": "=="}[tok], l, r)
+
+
+def _ll_bool(t, size):
+    """a 0/1 result: select(c, 1, 0), select(c, 0, 1), zext(c) or the i1 comparison itself -> canonical comparison"""
+    if isinstance(t, tuple) and t and t[0] == "select" and len(t) == 4:
+        cc = _ll_cond(t[1])
+        if cc is not None and t[2][0] == "const" and t[3][0] == "const":
+            if (t[2][2], t[3][2]) == (1, 0):
+                return cc
+            if (t[2][2], t[3][2]) == (0, 1):
+                return _ll_negate(cc)
+        return None
+    if isinstance(t, tuple) and t and t[0] == "zext":
+        return _ll_cond(t[1])
+    return _ll_cond(t)
+
+
+def _ll_modlin(t, size):
+    """shift amount as (k, c, reduced): k*b + c modulo `size` (a power of two, so the wrap of the machine width is invisible);
+    reduced = the value is known to be < size"""
+    if not isinstance(t, tuple) or not t:
+        return None
+    if t[0] == "leaf":
+        return (1, 0, False) if t[1] == "b" else None
+    if t[0] == "const":
+        return (0, t[2] % size, t[2] < size)
+    if t[0] == "urem" and len(t) == 3 and t[2][0] == "const" and t[2][2] == size:
+        x = _ll_modlin(t[1], size)
+        return None if x is None else (x[0], x[1], True)
+    if t[0] == "and_" and len(t) == 3:
+        for x, mk in ((t[1], t[2]), (t[2], t[1])):
+            if mk[0] == "const" and mk[2] == size - 1:
+                y = _ll_modlin(x, size)
+                return None if y is None else (y[0], y[1], True)
+        return None
+    if t[0] in ("sub", "add") and len(t) == 3:
+        x, y = _ll_modlin(t[1], size), _ll_modlin(t[2], size)
+        if x is None or y is None:
+            return None
+        sgn = -1 if t[0] == "sub" else 1
+        return ((x[0] + sgn * y[0]) % size, (x[1] + sgn * y[1]) % size, False)
+    if t[0] == "neg" and len(t) == 2:
+        x = _ll_modlin(t[1], size)
+        return None if x is None else ((-x[0]) % size, (-x[1]) % size, False)
+    return None
+
+
+def llvm_operator_rules(ck, rid, where):
+    from sa.optable import OT0, LLVM
+
+    def term(op, nargs, size):
+        try:
+            return _ll(tt.llvm_term(ck.repo, op, nargs, size))
+        except UnboundLocal as e:
+            ck.ob(rid, "llvm:%s" % op, False, where, "translating %r at %d bits: %s" % (op, size, e))
+            return None
+        except Undetermined as e:
+            raise AnalysisError("LLVM translation of %r at %d bits: construct not understood by the partial evaluator (%s)" % (op, size, e))
+    A, Bb, C = ("leaf", "a"), ("leaf", "b"), ("leaf", "c")
+    SIZES = (8, 32, 64)
+    # comparisons
+    CMP = {"==": ("u", "=="), "<u": ("u", "<"), "<=u": ("u", "<="), "<s": ("s", "<"), "<=s": ("s", "<=")}
+    for op, (sg, tok) in sorted(CMP.items()):
+        t = term(op, 2, 1)
+        if t is None:
+            continue
+        cc = _ll_bool(t, 1)
+        ck.ob(rid, "llvm:%s" % op, cc == (sg, tok, A, Bb), where,
+              "comparison %r is built as %s; the reference is the %s comparison a %s b giving 1 when true"
+              % (op, cc if cc is not None else t, "unsigned" if sg == "u" else "signed", tok))
+    # division family and n-ary operators
+    for op in ("udiv", "umod", "sdiv", "smod", "%", "/"):
+        t = term(op, 2, 32)
+        if t is None:
+            continue
+        got = LLVM.get(t[0], "?") if isinstance(t, tuple) and len(t) == 3 else "?"
+        ck.ob(rid, "llvm:%s" % op, got == OT0[op], where, "operator %r is built with builder.%s = %s; miasm's meaning is %s" % (op, t[0], got, OT0[op]))
+        ck.ob(rid, "llvm:division-operands:%s" % op, tuple(t[1:]) == (A, Bb), where,
+              "%r must be built as op(dividend, divisor) = op(a, b); found operands %s" % (op, t[1:]))
+    for op in ("*", "+", "&", "^", "|"):
+        t = term(op, 3, 32)
+        if t is None:
+            continue
+        heads, leaves = set(), []
+
+        def rec(x):
+            if isinstance(x, tuple) and x and x[0] not in ("leaf", "const") and len(x) == 3:
+                heads.add(x[0])
+                rec(x[1])
+                rec(x[2])
+            else:
+                leaves.append(x)
+        rec(t)
+        got = LLVM.get(list(heads)[0], "?") if len(heads) == 1 else "?"
+        ck.ob(rid, "llvm:%s" % op, got == OT0[op] and sorted(leaves) == [A, Bb, C], where,
+              "operator %r over (a, b, c) is built as %s over %s; miasm's meaning is %s over all three operands" % (op, sorted(heads), leaves, OT0[op]))
+    # shifts
+    for op, prim in ((">>", "lshr"), ("<<", "shl"), ("a>>", "ashr")):
+        for W in SIZES:
+            t = term(op, 2, W)
+            if t is None:
+                continue
+            sel = t if isinstance(t, tuple) and t[0] == "select" and len(t) == 4 else None
+            guard = _ll_cond(sel[1]) if sel else None
+            inb, oob = (sel[2], sel[3]) if sel else (t, None)
+            if guard is not None and guard[1:] == ("<=", ("const", W, W), Bb):       # select(W <= b, fill, shift)
+                guard, inb, oob = _ll_negate(guard), oob, inb
+            got = LLVM.get(inb[0], "?") if isinstance(inb, tuple) and len(inb) == 3 else "?"
+            want = {"LSHR_SAT": "LSHR_POISON", "SHL_SAT": "SHL_POISON", "ASHR_SAT": "ASHR_POISON"}[OT0[op]]
+            ck.ob(rid, "llvm:%s" % op, got == want and tuple(inb[1:]) == (A, Bb), where,
+                  "operator %r at %d bits shifts with builder.%s%s; miasm's meaning is %s of (a, b)" % (op, W, inb[0], inb[1:], OT0[op]))
+            ck.ob(rid, "llvm:shift-saturation", guard == ("u", "<", Bb, ("const", W, W)), where,
+                  "%r at %d bits: the shift must be selected only when count <u width (LLVM shifts by >= width are poison); guard found: %s" % (op, W, guard))
+            if op != "a>>":
+                ck.ob(rid, "llvm:shift-saturation", oob == ("const", W, 0), where, "%r at %d bits by a count >= width must give 0; found %s" % (op, W, oob))
+            else:
+                ok = isinstance(oob, tuple) and oob[0] == "select" and len(oob) == 4 and _ll_cond(oob[1]) == ("s", "<", A, ("const", W, 0)) and \
+                    oob[2] == ("const", W, (1 << W) - 1) and oob[3] == ("const", W, 0)
+                ok = ok or (isinstance(oob, tuple) and oob[0] == "ashr" and len(oob) == 3 and oob[1] == A and oob[2] == ("const", W, W - 1))
+                ck.ob(rid, "llvm:ashr-sign-fill", ok, where, "a>> by a count >= width must give -1 for negative values and 0 otherwise; found %s" % (oob,))
+    # rotations
+    for op in ("<<<", ">>>"):
+        for W in SIZES:
+            t = term(op, 2, W)
+            if t is None:
+                continue
+            bad = None
+            if not (isinstance(t, tuple) and t[0] == "or_" and len(t) == 3):
+                bad = "the result is not the OR of two shifted parts: %s" % (t,)
+            else:
+                parts = dict((p[0], p) for p in t[1:] if isinstance(p, tuple) and len(p) == 3)
+                if set(parts) != set(["shl", "lshr"]) or any(p[1] != A for p in parts.values()):
+                    bad = "the two parts must be a shl and a lshr of the rotated value; found %s" % (t[1:],)
+                else:
+                    fwd, back = ("shl", "lshr") if op == "<<<" else ("lshr", "shl")
+                    f, b_ = _ll_modlin(parts[fwd][2], W), _ll_modlin(parts[back][2], W)
+                    if f is None or b_ is None:
+                        raise AnalysisError("LLVM rotation %r: shift amounts not understood: %s" % (op, t))
+                    if f[:2] != (1, 0) or not f[2]:
+                        bad = "the %s amount must be the count reduced modulo the width; found %s" % (fwd, parts[fwd][2])
+                    elif b_[:2] != (W - 1, 0) or not b_[2]:
+                        bad = "the %s amount must be (width - count) reduced modulo the width; found %s" % (back, parts[back][2])
+            ck.ob(rid, "llvm:rotations", bad is None, where, "%r at %d bits: %s" % (op, W, bad))
+    # unary minus, parity
+    for W in SIZES:
+        t = term("-", 1, W)
+        if t is not None:
+            ck.ob(rid, "llvm:neg", t in (("sub", ("const", W, 0), A), ("neg", A)), where, "unary minus at %d bits must be 0 - a; found %s" % (W, t))
+        t = term("parity", 1, W)
+        if t is not None:
+            inner = None
+            if isinstance(t, tuple) and t[0] == "not_" and len(t) == 2:
+                inner = t[1]
+            elif isinstance(t, tuple) and t[0] == "xor" and len(t) == 3 and ("const", 1, 1) in t[1:]:
+                inner = [x for x in t[1:] if x != ("const", 1, 1)][0]
+            ok = False
+            if isinstance(inner, tuple) and inner[0] == "trunc" and inner[2] == ("type", 1):
+                call = inner[1]
+                if isinstance(call, tuple) and call[0] == "call" and isinstance(call[1], tuple) and call[1][0].endswith("get_global") and len(call[2]) == 1:
+                    fname, arg = call[1][1], call[2][0]
+                    ok = (fname == "llvm.ctpop.i8" and arg == ("trunc", A, ("type", 8))) or \
+                         (fname == "llvm.ctpop.i%d" % W and arg in (("and_", A, ("const", W, 0xff)), ("and_", ("const", W, 0xff), A)))
+            ck.ob(rid, "llvm:parity", ok, where, "parity at %d bits must be not(popcount(low byte of a) & 1); found %s" % (W, t))
